@@ -919,7 +919,7 @@ class WorkflowConductor(object):
         new_task_status = task_state_entry.get("status", statuses.UNSET)
 
         # If retrying, staged the task to be returned in get_next_tasks.
-        if new_task_status == statuses.RETRYING:
+        if new_task_status == statuses.RETRYING and old_task_status != statuses.RETRYING:
             # Increment the number of times that the task has retried.
             task_state_entry["retry"]["tally"] += 1
 
